@@ -13,6 +13,28 @@ WH_NOTE = ("trusted: Coq 8.16.1 kernel (no axioms: Print Assumptions is 'Closed 
            "execution; Vec/VecDeque/hashbrown/serde modelled by contract; archetype-table order is an oracle input")
 
 CLAIMED = {
+    "C01": dict(engine="world-histories",
+                text="Refinement proved for every operation from every Inv world: step w o does to the identifier->component-vector "
+                     "map exactly what the reference map does (feq fixes the value at every identifier, so no other entity changes), "
+                     "len = number of keys, component order in entity!/entities! irrelevant, clone_from/serde reproduce the map; "
+                     "reference-map oracle on the implementation after every op of generated histories. Known finding F5 (class K01) "
+                     "kept visible as C01_K01_refuted.",
+                technique="Rocq refinement proof (model step = reference-map step, all histories) + op-by-op differential execution",
+                ref="DESIGN.md §7 C01"),
+    "C02": dict(engine="world-histories",
+                text="Freshness of every identifier issued (NoDup over whole histories, wrap-around of u64 generations explicit: "
+                     "history shorter than 2^64, and the unbounded statement is proved false), stability of live identifiers under "
+                     "every op not aimed at them, deadness for ever after remove/clear, remove of a dead id is the identity; "
+                     "the harness probes every identifier ever issued after every op.",
+                technique="Rocq proof by generation-history invariant over all histories + differential execution with stale-id probes",
+                ref="DESIGN.md §7 C02"),
+    "C04": dict(engine="world-histories",
+                text="Multiset conservation proved per operation and over whole histories incl. the final world drop: owned + moved-in "
+                     "= owned' + dropped, clone drops nothing and owns one clone of each value, clone_from drops exactly the "
+                     "destination's values; per-op ledger delta of drop-observing components compared with the model's events and "
+                     "an end-of-case audit (every token dropped exactly once).",
+                technique="Rocq proof of drop-event conservation (Permutation) + per-op ledger comparison on the real library",
+                ref="DESIGN.md §7 C04"),
     "C06": dict(engine="world-histories",
                 text="Round trip proved over the serialized content (de_world (ser_world w) = w up to the type-id cache, "
                      "Inv and == of the result, any accepted content yields a valid world that serializes again); both "
@@ -78,7 +100,7 @@ def main():
          "hooks": {"guard": "--cfg brood_verif",
                    "enable": "RUSTFLAGS=\"--cfg brood_verif\" (set by lib/common.py for every harness build)",
                    "baseline_off_cmd": "cd /repo && cargo test --workspace --no-fail-fast --offline",
-                   "source_commits": ["a7ed20d"], "add_only": True},
+                   "source_commits": ["a7ed20d", "710af89"], "add_only": True},
          "engines": engines,
          "checks": checks,
          "notes": "Family: machine-checked proof in Rocq (Coq 8.16.1): theorems over an executable Gallina model in coq/, "
